@@ -114,6 +114,7 @@ structure State where
   decs   : List Decision := []            -- ghost: decisions in the order they were taken
   decOf  : List (Nat × Decision) := []    -- ghost: decision per caller
   used   : Nat := 0                       -- ghost: draws consumed so far
+  gone   : Bool := false                  -- `manual dropsvc`: the caller has dropped every handle of the service
   log    : List Ev := []
 deriving Repr
 
@@ -122,6 +123,7 @@ inductive Op
   | poll (c : Nat) (d : Option Draws)
   | drop (c : Nat)
   | adv (ms : Nat)
+  | dropsvc                               -- the caller drops every handle of the service, and the layer
 deriving Repr
 
 def emit (s : State) (evs : List Ev) : State := { s with log := s.log ++ evs }
@@ -167,7 +169,12 @@ def pollFresh (cfg : Cfg) (s : State) (c tag : Nat) (st : Step) (d : Draws) : St
 def stepS (cfg : Cfg) (s : State) (op : Op) : State :=
   match op with
   | .adv ms => { s with now := s.now + ms }
-  | .arrive c tag st => if known s c then s else setPhase s c (.fresh tag st)
+  -- a request needs a handle to be made on (`poll_ready` / `call` take `&mut self`)
+  | .arrive c tag st => if s.gone || known s c then s else setPhase s c (.fresh tag st)
+  -- The call future owns all it needs (service.rs:55-59: the inner service, `Arc`s of the configuration and of
+  -- the generator): nothing of a request that has arrived — polled or not yet polled — changes when the handles go;
+  -- its decision is still taken at its first poll, from the same generator.
+  | .dropsvc => { s with gone := true }
   | .poll c d =>
       match lookup s.phase c with
       | some (.fresh tag st) =>
@@ -250,6 +257,7 @@ def parseOp (ws : List String) : Option Op :=
   | "poll" :: c :: rest => some (.poll (c.toNat?.getD 0) (parseDraws (parseKv rest)))
   | "drop" :: c :: _ => some (.drop (c.toNat?.getD 0))
   | "adv" :: ms :: _ => some (.adv (ms.toNat?.getD 0))
+  | "manual" :: "dropsvc" :: _ => some .dropsvc
   | _ => none
 
 /-- thresholds reported by the harness on this line, if any -/
